@@ -46,21 +46,26 @@ REQUIRED = ["self_loop", "irreducible", "in_degree>=9", "in_degree>=65", "depth>
             "production_cfg"]
 
 
-def run_sweeps(binary, pre, jobs):
+def run_sweeps(binary, pre, jobs, fallback=None):
     """Runs `binary pre sweep n lo hi` for every job, 16 at a time; returns the
-    concatenated lines in job order."""
-    def one(job):
-        n, lo, hi = job
+    list of output lines per job.  When a process dies (a stack overflow or an
+    abort in the implementation takes the harness with it) `fallback(k)` supplies
+    the lines of job k instead, graph by graph."""
+    def one(kjob):
+        k, (n, lo, hi) = kjob
         rc, out, err = common.sh([binary] + pre + ["sweep", str(n), str(lo), str(hi)], timeout=1500)
         if rc != 0:
-            raise common.BuildError("%s %s sweep %d %d %d failed rc=%d" % (os.path.basename(binary), " ".join(pre), n, lo, hi, rc), err[-2000:])
+            if fallback is None:
+                raise common.BuildError("%s %s sweep %d %d %d failed rc=%d" % (os.path.basename(binary), " ".join(pre), n, lo, hi, rc), err[-2000:])
+            common.log("C15: %s sweep %d %d %d died (rc=%d): running its graphs one by one" % (os.path.basename(binary), n, lo, hi, rc))
+            return fallback(k)
         return out.splitlines()
     with concurrent.futures.ThreadPoolExecutor(max_workers=common.NPROC) as ex:
-        outs = list(ex.map(one, jobs))
-    res = []
-    for o in outs:
-        res.extend(o)
-    return res
+        return list(ex.map(one, enumerate(jobs)))
+
+
+def flat(per_job):
+    return [l for o in per_job for l in o]
 
 
 def run_jobs(specs, timeout=1200):
@@ -97,9 +102,15 @@ def run_jobs(specs, timeout=1200):
         return key, idx, res
     out = {key: [None] * len(lines) for key, _, _, lines in specs}
     with concurrent.futures.ThreadPoolExecutor(max_workers=common.NPROC) as ex:
-        for key, idx, res in ex.map(one, chunks):
+        again = []
+        for c, (key, idx, res) in zip(chunks, ex.map(one, chunks)):
             for k, r in zip(idx, res):
                 out[key][k] = r
+            if len(idx) > 1 and res[0].endswith(" = died"):
+                # isolate the graph that killed the process: one line per process
+                again += [(c[0], key, c[2], c[3], c[4], [k]) for k in idx]
+        for key, idx, res in ex.map(one, again):
+            out[key][idx[0]] = res[0]
     return out
 
 
@@ -305,8 +316,15 @@ def run(ctx, proofs):
             lo = ctx.rng.randrange(0, (1 << 20) - 2048)
             slices.append((5, lo, lo + 2048))
         jobs += slices
-    impl = run_sweeps(HARNESS_BIN, [], jobs)
-    by_mode = {m: run_sweeps(MODEL_BIN, [m], jobs) for m in MODES}
+    per_job = {m: run_sweeps(MODEL_BIN, [m], jobs) for m in MODES}
+    by_mode = {m: flat(per_job[m]) for m in MODES}
+
+    def one_by_one(k):
+        # the graphs of job k as the oracle side lists them, through the line mode of the harness
+        heads = [l.split(" = ", 1)[0] for l in per_job["spec"][k]]
+        res = run_jobs([("impl", HARNESS_BIN, [], [edges_line(h) for h in heads])])["impl"]
+        return ["%s = %s" % (h, rhs(r)) for h, r in zip(heads, res)]
+    impl = flat(run_sweeps(HARNESS_BIN, [], jobs, fallback=one_by_one))
     heads_i = [l.split(" = ", 1)[0] for l in impl]
     for m in MODES:
         heads_m = [l.split(" = ", 1)[0] for l in by_mode[m]]
@@ -395,7 +413,9 @@ def run(ctx, proofs):
         T.sizes[k] = T.sizes.get(k, 0) + 1
 
     # ---- verdict ----
-    failing, disagreements = T.failing, T.disagreements
+    # the smallest failing graphs are the ones reported
+    failing = sorted(T.failing, key=lambda f: (int(f["case"].split()[0]), len(f["case"])))
+    disagreements = sorted(T.disagreements, key=lambda d: (int(d["case"].split()[0]), len(d["case"])))
     for f in failing[:5]:
         more = "" if len(failing) <= 5 else " (%d failing graphs in all, the first five are reported)" % len(failing)
         rep = {"input": f["case"], "impl": f["impl"], "spec": f["spec"], "spec_source": f["spec_source"]}
